@@ -169,6 +169,11 @@ struct World {
     /// taken yet (every delivered Connect / Bind counts): below the queue capacity means the receive loop
     /// is certainly not parked on a full queue
     backlog: [[usize; 2]; 2],
+    /// C03 `over-acknowledged`: per endpoint and flow id, Push frames delivered to it and frames it has
+    /// acknowledged since the handshake; ids whose handshake Acknowledge (the answer to a Connect) is still to come
+    pushes_in: [HashMap<u32, u64>; 2],
+    acked_out: [HashMap<u32, u64>; 2],
+    hs_pending: [std::collections::HashSet<u32>; 2],
 }
 
 const NAMES: [&str; 2] = ["A", "B"];
@@ -269,6 +274,9 @@ impl World {
             skip_events: false,
             in_batch: false,
             backlog: [[0; 2]; 2],
+            pushes_in: [HashMap::new(), HashMap::new()],
+            acked_out: [HashMap::new(), HashMap::new()],
+            hs_pending: [std::collections::HashSet::new(), std::collections::HashSet::new()],
         };
         for v in &mut w.view {
             v.mux_alive = true;
@@ -422,6 +430,13 @@ impl World {
                     }
                     if op == 0 { self.backlog[e][0] += 1; }
                     if op == 5 { self.backlog[e][1] += 1; }
+                    if op == 0 {
+                        // a Connect delivered to e: accounting for this id restarts, its answer is the handshake
+                        self.hs_pending[e].insert(id);
+                        self.pushes_in[e].remove(&id);
+                        self.acked_out[e].remove(&id);
+                    }
+                    if op == 4 { *self.pushes_in[e].entry(id).or_insert(0) += 1; }
                 }
             }
         }
@@ -815,6 +830,30 @@ impl World {
                             if *c < 0 {
                                 let msg = format!("endpoint {} put a Push on flow {id:08x} on the wire without credit (window exceeded by {})", NAMES[e], -*c);
                                 self.fail("C03", "window-exceeded", msg);
+                            }
+                        }
+                        if op == 0 {
+                            // e proposes the id itself: accounting restarts, every Acknowledge of e on it is a credit grant
+                            self.hs_pending[e].remove(&id);
+                            self.pushes_in[e].remove(&id);
+                            self.acked_out[e].remove(&id);
+                        }
+                        if op == 1 {
+                            if self.hs_pending[e].remove(&id) {
+                                // the answer to a Connect: carries the window, acknowledges nothing
+                            } else if let Some((_, _, p)) = parse_frame(m).filter(|(_, _, p)| p.len() >= 4) {
+                                let n = u64::from(u32::from_be_bytes([p[0], p[1], p[2], p[3]]));
+                                let a = self.acked_out[e].entry(id).or_insert(0);
+                                *a += n;
+                                let acked = *a;
+                                let got = self.pushes_in[e].get(&id).copied().unwrap_or(0);
+                                if clean && !self.reused {
+                                    *self.mon.entry("acked-within-received/judged").or_insert(0) += 1;
+                                    if acked > got {
+                                        let msg = format!("endpoint {} has acknowledged {acked} frames on flow {id:08x} but only {got} Push frames of that flow have been delivered to it since the handshake: it acknowledges frames it has not consumed, or the same frames twice (the sender's credit exceeds the window)", NAMES[e]);
+                                        self.fail("C03", "over-acknowledged", msg);
+                                    }
+                                }
                             }
                         }
                         if op == 2 {
